@@ -17,16 +17,19 @@ Definition NOT_FOUND := 132. Definition METHOD_NOT_ALLOWED := 133. Definition IN
 (* Code.is_request / is_response / class_  (codes.py:78-84, 105-119) *)
 Definition is_request (c : Z) : bool := (1 <=? c) && (c <? 32).
 Definition is_response (c : Z) : bool := (64 <=? c) && (c <? 192).
+Definition is_successful (c : Z) : bool := (64 <=? c) && (c <? 96).
 Definition class_ (c : Z) : Z := Z.shiftr c 5.
 
 Definition ascii_bytes (s : string) : bytes := map (fun a => Z.of_nat (nat_of_ascii a)) (list_ascii_of_string s).
 
 (* ------------------------------------------------------------------ messages and Python values *)
 (* the part of a response Message the server path looks at: code (None = not set), payload,
-   Content-Format (stands for "options the handler set", passed through untouched), No-Response option *)
-Record msg := { m_code : option Z; m_payload : bytes; m_cf : option Z; m_nr : option Z }.
+   Content-Format (stands for "options the handler set", passed through untouched), No-Response option, Observe option *)
+Record msg := { m_code : option Z; m_payload : bytes; m_cf : option Z; m_nr : option Z; m_obs : option Z }.
 Definition mk_msg (code : Z) (payload : bytes) : msg :=
-  {| m_code := Some code; m_payload := payload; m_cf := None; m_nr := None |}.
+  {| m_code := Some code; m_payload := payload; m_cf := None; m_nr := None; m_obs := None |}.
+Definition set_obs (m : msg) (o : option Z) : msg :=
+  {| m_code := m_code m; m_payload := m_payload m; m_cf := m_cf m; m_nr := m_nr m; m_obs := o |}.
 
 (* what a Python callable can hand back where a Message is expected *)
 Inductive value :=
@@ -97,8 +100,15 @@ Inductive outcome :=
 | Raise_ (e : exc)            (* render_<method> raises e *)
 | Script (l : list raction).  (* a resource implementing render_to_pipe itself performs l *)
 
+(* what an observable resource's add_observation does with the ServerObservation it is handed *)
+Inductive obs_mode :=
+| OAccept               (* serverobservation.accept(cb)   (resource.ObservableResource.add_observation) *)
+| ODecline              (* returns without accepting *)
+| OAcceptDeregister     (* accepts, then serverobservation.deregister() before the first response (early deregistration) *)
+| ORaise (e : exc).     (* raises *)
 Inductive rkind := Plain (methods : list Z)   (* resource.Resource subclass with render_<m> for the listed request codes *)
-                 | Raw.                       (* resource with its own render_to_pipe *)
+                 | Raw                        (* resource with its own render_to_pipe *)
+                 | Observable (methods : list Z) (mode : obs_mode).   (* resource.ObservableResource / a Resource mixed with interfaces.ObservableResource *)
 Definition site := list (list Z * rkind).     (* Site._resources: path (segments as numbers) -> resource *)
 
 Record request := {
@@ -106,6 +116,7 @@ Record request := {
   r_remote : Z; r_token : bytes; r_mid : Z; r_con : bool;
   r_code : Z; r_path : list Z;
   r_nr : option Z;          (* No-Response option of the request *)
+  r_obs : option Z;         (* Observe option of the request *)
   r_slow : bool;            (* handler first awaits something the environment completes later *)
   r_outcome : outcome }.
 
@@ -117,7 +128,7 @@ Inductive rendered := Responded (m : msg) | Raised (e : exc).
 Definition fill_defaults (r : request) (m : msg) : msg :=
   {| m_code := Some (match m_code m with Some c => c | None => default_code (r_code r) end);
      m_payload := m_payload m; m_cf := m_cf m;
-     m_nr := match m_nr m with Some n => Some n | None => r_nr r end |}.
+     m_nr := match m_nr m with Some n => Some n | None => r_nr r end; m_obs := m_obs m |}.
 Definition render (methods : list Z) (r : request) : rendered :=
   if negb (is_request (r_code r)) then Raised (cre E_UnsupportedMethod CDefault)
   else if negb (existsb (Z.eqb (r_code r)) methods) then Raised (cre E_UnallowedMethod CDefault)
@@ -125,7 +136,7 @@ Definition render (methods : list Z) (r : request) : rendered :=
        | Raise_ e => Raised e
        | Return (VMsg m) => Responded (fill_defaults r m)
        | Return VNoResponse =>          (* response = Message(no_response=26) *)
-           Responded (fill_defaults r {| m_code := None; m_payload := []; m_cf := None; m_nr := Some 26 |})
+           Responded (fill_defaults r {| m_code := None; m_payload := []; m_cf := None; m_nr := Some 26; m_obs := None |})
        | Return _ => Raised EOther      (* response.code -> AttributeError *)
        | Script _ => Raised EOther      (* not applicable to Plain resources *)
        end.
@@ -134,6 +145,38 @@ Fixpoint path_eqb (a b : list Z) : bool :=
   match a, b with [] , [] => true | x :: a', y :: b' => (x =? y) && path_eqb a' b' | _, _ => false end.
 Fixpoint find_resource (s : site) (p : list Z) : option rkind :=
   match s with [] => None | (q, k) :: rest => if path_eqb q p then Some k else find_resource rest p end.
+
+Definition respond_plain (methods : list Z) (r : request) : list raction :=
+  match render methods r with
+  | Responded m => [RAdd (VMsg m) true; RReturn]
+  | Raised e => [RRaise e]
+  end.
+(* interfaces.ObservableResource._render_to_pipe (interfaces.py:488-553) up to the first response.
+   Only Observe=0 takes this path; everything else is Resource._render_to_pipe. *)
+Definition observing (r : request) : bool := match r_obs r with Some 0 => true | _ => false end.
+Definition code_of_msg (m : msg) : Z := match m_code m with Some c => c | None => 0 end.
+(* the observation is established: accepted, not deregistered early, first response successful — the first response then
+   goes out non-final with Observe:0 and the coroutine waits for triggers (C08's business from there on) *)
+Definition establishes (methods : list Z) (mode : obs_mode) (r : request) : bool :=
+  match mode, render methods r with
+  | OAccept, Responded m => is_successful (code_of_msg m)
+  | _, _ => false
+  end.
+Definition respond_observable (methods : list Z) (mode : obs_mode) (r : request) : list raction :=
+  match mode with
+  | ORaise e => [RRaise e]                                 (* await self.add_observation(...) is outside the try *)
+  | _ =>
+    let accepted := match mode with ODecline => false | _ => true end in
+    match render methods r with
+    | Responded m =>
+        if establishes methods mode r then [RAdd (VMsg (set_obs m (Some 0))) false]
+        else if accepted then [RAdd (VMsg m) true; RReturn]
+        else [RAdd (VMsg m) true; RRaise EOther]           (* finally: servobs._cancellation_callback() -> AttributeError, after the final response *)
+    | Raised e =>
+        if accepted then [RRaise e]
+        else [RRaise EOther]                               (* FINDING: the AttributeError of the finally block replaces e *)
+    end
+  end.
 
 (* Context._render_to_pipe (protocol.py:591-598), Site.render_to_pipe (resource.py:464-487),
    interfaces.Resource._render_to_pipe (interfaces.py:405-435; no Block options, small payloads):
@@ -145,11 +188,9 @@ Definition respond (srv : option site) (r : request) : list raction :=
     match find_resource s (r_path r) with
     | None => [RRaise (cre E_NotFound CDefault)]
     | Some Raw => match r_outcome r with Script l => l | _ => [RRaise EOther] end
-    | Some (Plain methods) =>
-        match render methods r with
-        | Responded m => [RAdd (VMsg m) true; RReturn]
-        | Raised e => [RRaise e]
-        end
+    | Some (Plain methods) => respond_plain methods r
+    | Some (Observable methods mode) =>
+        if observing r then respond_observable methods mode r else respond_plain methods r
     end
   end.
 
@@ -161,7 +202,21 @@ Definition reaches_handler (srv : option site) (r : request) : bool :=
               | None => false
               | Some Raw => true
               | Some (Plain methods) => is_request (r_code r) && existsb (Z.eqb (r_code r)) methods
+              | Some (Observable methods mode) =>
+                  (match mode with ORaise _ => negb (observing r) | _ => true end)
+                  && is_request (r_code r) && existsb (Z.eqb (r_code r)) methods
               end
+  end.
+
+(* a rendering cancelled while its handler is still awaited (stop() from a same-key request): for a declined observation the
+   finally block's AttributeError replaces the CancelledError, reaches wrapped()'s except and is logged as discarded *)
+Definition cancel_raises (srv : option site) (r : request) : bool :=
+  match srv with
+  | Some s => match find_resource s (r_path r) with
+              | Some (Observable _ ODecline) => observing r
+              | _ => false
+              end
+  | None => false
   end.
 
 (* error_to_message.on_event, exception branch (pipe.py:250-280): what is put on the requester's pipe *)
